@@ -179,7 +179,7 @@ func genD4Shape(rt *rapid.T) []byte {
 	if uni(rt, 5, "prefix") == 0 {
 		return []byte{0, 0, 0}
 	}
-	a := bits(rt, "pool", 25) | pick[byte](rt, "relay", 0, 0, 1, 2, 2, 3)<<1 | bits(rt, "clientOpts", 30, 25)<<3 | byte(drawWeighted(rt, []int{8, 14, 30, 10, 10, 12, 6, 10}, "history"))<<5
+	a := bits(rt, "pool", 25) | pick[byte](rt, "relay", 0, 0, 1, 2, 2, 3)<<1 | bits(rt, "clientOpts", 30, 25)<<3 | byte(drawWeighted(rt, []int{8, 14, 28, 10, 10, 11, 9, 10}, "history"))<<5
 	b := pick[byte](rt, "others", 0, 0, 0, 1, 2, 3) | bits(rt, "sameCircuit", 40)<<2 | pick[byte](rt, "time", 0, 0, 0, 1, 2, 2, 3, 3)<<3 | bits(rt, "shortLease", 30)<<5
 	return []byte{1, a, b}
 }
